@@ -669,8 +669,9 @@ ws_write_cb(void *arg)
 				frame->aio = NULL;
 				nni_aio_list_remove(aio);
 				nni_aio_finish_error(aio, NNG_ECLOSED);
-				ws_frame_fini(frame);
 			}
+			// control frames have no aio, but must be freed too
+			ws_frame_fini(frame);
 		}
 		if (ws->peer_closed) {
 			if (ws->wclose) { // could assert this?
